@@ -1111,8 +1111,10 @@ def _save_component(component, context):
 
     if not context.include_data and hasattr(component, '_load_log'):
         log = component._load_log
+        # Note that the units may have been changed since the data was loaded
         return dict(log=context.id(log),
-                    log_item=log.id(component))
+                    log_item=log.id(component),
+                    units=component.units)
     return dict(data=context.do(component.data),
                 units=component.units)
 
@@ -1121,7 +1123,10 @@ def _save_component(component, context):
 def _load_component(rec, context):
 
     if 'log' in rec:
-        return context.object(rec['log']).component(rec['log_item'])
+        component = context.object(rec['log']).component(rec['log_item'])
+        if 'units' in rec:
+            component.units = rec['units']
+        return component
 
     cls = lookup_class_with_patches(rec['_type'])
 
@@ -1134,8 +1139,10 @@ def _save_categorical_component(component, context):
 
     if not context.include_data and hasattr(component, '_load_log'):
         log = component._load_log
+        # Note that the units may have been changed since the data was loaded
         return dict(log=context.id(log),
-                    log_item=log.id(component))
+                    log_item=log.id(component),
+                    units=component.units)
 
     return dict(categorical_data=context.do(component.labels),
                 categories=context.do(component.categories),
@@ -1146,7 +1153,10 @@ def _save_categorical_component(component, context):
 @loader(CategoricalComponent)
 def _load_categorical_component(rec, context):
     if 'log' in rec:
-        return context.object(rec['log']).component(rec['log_item'])
+        component = context.object(rec['log']).component(rec['log_item'])
+        if 'units' in rec:
+            component.units = rec['units']
+        return component
 
     return CategoricalComponent(categorical_data=context.object(rec['categorical_data']),
                                 categories=context.object(rec['categories']),
@@ -1489,7 +1499,9 @@ def _load_regiondata(rec, context):
 def _save_extended_component(component, context):
     if not context.include_data and hasattr(component, "_load_log"):
         log = component._load_log
-        return dict(log=context.id(log), log_item=log.id(component))
+        # Note that the units may have been changed since the data was loaded
+        return dict(log=context.id(log), log_item=log.id(component),
+                    units=component.units)
 
     data_to_save = [x for x in component.data]
 
@@ -1502,7 +1514,10 @@ def _save_extended_component(component, context):
 @loader(ExtendedComponent)
 def _load_extended_component(rec, context):
     if "log" in rec:
-        return context.object(rec["log"]).component(rec["log_item"])
+        component = context.object(rec["log"]).component(rec["log_item"])
+        if "units" in rec:
+            component.units = rec["units"]
+        return component
 
     data_to_load = np.asarray([x for x in context.object(rec["data"])])
     return ExtendedComponent(data=data_to_load,
